@@ -903,6 +903,10 @@ func (fc *FnCtx) chanRecv(st *State, ch Val, e ast.Expr) (Val, Val) {
 		c := fc.specEval(env, inv.Inv.E)
 		st.assume(imp(ok.T, c.T))
 	}
+	if st.recvs == "" {
+		st.recvs = "0"
+	}
+	st.recvs = "(+ " + st.recvs + " (ite " + ok.T + " 1 0))"
 	return v, ok
 }
 
